@@ -27,6 +27,9 @@ pub struct Case {
     pub recentre: Option<f64>,
     /// Euler only: call both with_minimum_dt and with_maximum_dt (the step is their running average)
     pub euler_both: bool,
+    /// build through new_dyn(dim) with a dynamically sized state instead of new()
+    #[serde(default)]
+    pub dynamic: bool,
 }
 
 pub const DERIV_BUDGET: usize = 4_000_000;
@@ -216,7 +219,10 @@ pub fn run_case(case: &Case) -> Outcome {
     o.set("dt0", cfg.dt0());
     let probe = Rc::new(RefCell::new(Probe { budget: DERIV_BUDGET, ..Default::default() }));
     let rhs = |t: f64, y: &[f64], out: &mut [f64]| cp.f(t, y, out);
-    let run = run_real(solver, false, cp.dim, &su.calls, &case.y0, probe.clone(), &rhs, MAX_POINTS, 3);
+    let run = run_real(solver, case.dynamic, cp.dim, &su.calls, &case.y0, probe.clone(), &rhs, MAX_POINTS, 3);
+    if case.dynamic {
+        o.label("dynamic-dimension");
+    }
     o.set("points", run.pts.len());
     o.set("derivative_calls", probe.borrow().calls);
     let completed = match &run.end {
@@ -241,7 +247,7 @@ pub fn run_case(case: &Case) -> Outcome {
     }
     // the same through collect_vec
     let probe2 = Rc::new(RefCell::new(Probe { budget: DERIV_BUDGET, ..Default::default() }));
-    match collect_real(solver, false, cp.dim, &su.calls, &case.y0, probe2, &rhs) {
+    match collect_real(solver, case.dynamic, cp.dim, &su.calls, &case.y0, probe2, &rhs) {
         Err(m) => return o.fail(format!("collect_vec panicked: {m}")),
         Ok(Ok(p)) => {
             if !completed {
@@ -302,8 +308,8 @@ pub fn config_strategy(t: Tier, solvers: &'static [SolverKind]) -> BoxedStrategy
 }
 
 fn strategy(t: Tier) -> BoxedStrategy<Case> {
-    (config_strategy(t, &ALL_SOLVERS), problem_any(), any::<bool>())
-        .prop_map(|((solver, t0, dt_max, min_exp, k, kclass, tol, recentre), (problem, y0), euler_both)| Case { solver, problem, y0, t0, dt_max, min_exp, k, kclass, tol, recentre, euler_both })
+    (config_strategy(t, &ALL_SOLVERS), problem_any(), any::<bool>(), prop_oneof![3 => Just(false), 1 => Just(true)])
+        .prop_map(|((solver, t0, dt_max, min_exp, k, kclass, tol, recentre), (problem, y0), euler_both, dynamic)| Case { solver, problem, y0, t0, dt_max, min_exp, k, kclass, tol, recentre, euler_both, dynamic })
         .boxed()
 }
 
@@ -327,16 +333,16 @@ pub fn run(opts: &Opts) -> i32 {
                     if j == 0 && d <= 0.0 {
                         continue;
                     }
-                    spec.enumerated.push(Case { solver, problem: problem.clone(), y0: y0.clone(), t0: 0.25, dt_max: 0.05, min_exp: 3.0, k: j as f64 + d, kclass: 0, tol: 1e-6, recentre: None, euler_both: false });
+                    spec.enumerated.push(Case { solver, problem: problem.clone(), y0: y0.clone(), t0: 0.25, dt_max: 0.05, min_exp: 3.0, k: j as f64 + d, kclass: 0, tol: 1e-6, recentre: None, euler_both: false, dynamic: j % 2 == 1 && d == 0.37 });
                 }
             }
         }
     }
     spec.cases = opts.tier.pick(12_000, 300_000);
     spec.exhaustive = Some("boundary sweep: 7 solvers x 4 fixed problems x interval length (j + delta) dt0, j = 0..9, delta in {-1e-9,-1e-12,0,1e-12,1e-9,0.37}".into());
-    spec.essential = vec![("rejected", 0.05), ("grew", 0.05), ("startup-clipped", 0.03), ("k-long", 0.1), ("euler", 0.05), ("bdf6", 0.05), ("generic", 0.1)];
+    spec.essential = vec![("rejected", 0.05), ("grew", 0.05), ("startup-clipped", 0.03), ("k-long", 0.1), ("euler", 0.05), ("bdf6", 0.05), ("generic", 0.1), ("dynamic-dimension", 0.1)];
     spec.max_discard_frac = 0.1;
-    spec.rule = "generated: solver (7) x problem family P (linear constant-coefficient incl. solutions at rest, forced linear, separable, generic non-linear non-autonomous; dimension 1-4) x t0 in [-2,2] x dt_max 10^[-3,-0.52] x dt_min = dt_max 10^-[0,8] x tolerance 10^[-10,-2] (half of the cases recentred on the reference error estimate of the first trial step x 10^[-0.5,0.5]) x interval length k dt0 with k from the boundary sweep j+delta, U(0.05,12) or log-uniform up to 300/3000 steps; Euler with one or both step setters. Oracle (invariant over the yielded history, through next() and collect_vec): strictly increasing times from t0, inside the interval (slack 16 eps max|t|), gaps <= dt_max, dimension and finiteness, completed adaptive solves end at the ending time, Euler yields (t0,y0) first and every step time before the end, nothing after the end. Non-trivial = >= 3 points and (boundary-sweep case or unequal gaps). Distinct = distinct case JSON.".into();
+    spec.rule = "generated: solver (7) x problem family P (linear constant-coefficient incl. solutions at rest, forced linear, separable, generic non-linear non-autonomous; dimension 1-4) x t0 in [-2,2] x dt_max 10^[-3,-0.52] x dt_min = dt_max 10^-[0,8] x tolerance 10^[-10,-2] (half of the cases recentred on the reference error estimate of the first trial step x 10^[-0.5,0.5]) x interval length k dt0 with k from the boundary sweep j+delta, U(0.05,12) or log-uniform up to 300/3000 steps; Euler with one or both step setters; a quarter of the cases through new_dyn(dim) with a dynamically sized state. Oracle (invariant over the yielded history, through next() and collect_vec): strictly increasing times from t0, inside the interval (slack 16 eps max|t|), gaps <= dt_max, dimension and finiteness, completed adaptive solves end at the ending time, Euler yields (t0,y0) first and every step time before the end, nothing after the end. Non-trivial = >= 3 points and (boundary-sweep case or unequal gaps). Distinct = distinct case JSON.".into();
     spec.assumptions = vec!["time comparisons carry the slack 16 eps max(|t0|,|t_end|) (solvers accumulate time in floating point)".into()];
     spec.max_shrink_iters = 600;
     run_spec(spec, opts)
